@@ -394,8 +394,18 @@ impl<'a> Context<'a> {
     /// Return the current [Token] and [Span].
     fn peek(&self) -> (&Token, Span) {
         let token = self.tokens.get(self.curr).unwrap_or(&T::EOF);
-        let zero_span = Span::zero(self.file_id);
-        let span = self.spans.get(self.curr).unwrap_or(&zero_span).clone();
+        // Past the last token we are at the end of the file: directly after the last token.
+        let eof_span = match self.spans.last() {
+            Some(last) => Span {
+                file_id: self.file_id,
+                line_start: last.line_end,
+                line_end: last.line_end,
+                col_start: last.col_end,
+                col_end: last.col_end,
+            },
+            None => Span::zero(self.file_id),
+        };
+        let span = self.spans.get(self.curr).unwrap_or(&eof_span).clone();
         (token, span)
     }
 
